@@ -196,11 +196,14 @@ def run_falsifier(ctx, check_types):
             # the nested layout with a child used by two nested classes of one root: the child is hoisted into the root and
             # referred to by an absolute 'Root.Child' path, under root names the generator has to convert
             from .. import gen as _gen
-            name, docs = _gen.gen_shared_under_root(rng)
+            name, docs = _gen.gen_shared_under_root(rng, union=(i // 12) % 3 != 0)
             inputs = [(name, docs)]
             cmps = [ModelFieldsEquals()]
             job.update({"layout": "nested", "sharedOk": True})
             job.pop("renderFirst", None)
+            job.pop("renderFirstFw", None)
+            if (i // 12) % 2 == 0:
+                job["renderFirst"] = "flat"          # the same registry rendered flat first: the reference context differs
         if i >= len(focus) and i % 12 == 3:
             # renamed keys holding characters on which str.splitlines splits, inside a nested class (the nested layout
             # re-indents the child's code)
